@@ -205,12 +205,13 @@ CLAIMED = {
              "the Thomas algorithm solves the (1, 4, 1) slope system, and the assembled matrix applied to any samples is, at every pixel and "
              "every size, the Abel integral of the clamped cubic spline through them; the two-point and three-point operators applied to any "
              "samples are, at every pixel (axis row with Dasch's special cases included), the inverse Abel integral −(1/π)∫P′(ρ)/ρ dt along the line "
-             "of sight of the piecewise-linear / local quadratic interpolant (J, I0, I1 = shell integrals of 1/ρ and (ρ−j)/ρ; summation by parts). Tie: Lean matrices "
-             "(onionW, twoPointD, threePointD, daun0-3, the _bs_rbasex model) vs the implementation's arrays entrywise. Oracle: scipy quadrature of the defining integrals "
+             "of sight of the piecewise-linear / local quadratic interpolant (J, I0, I1 = shell integrals of 1/ρ and (ρ−j)/ρ; summation by parts); "
+             "BASEX: σ times the whole series the code sums for χ_k is the Abel integral of ρ_k(r/σ), every k, σ, x (binomial theorem, Gaussian moments). Tie: Lean matrices "
+             "(onionW, twoPointD, threePointD, daun0-3, the _bs_rbasex and _bs_basex models) vs the implementation's arrays entrywise. Oracle: scipy quadrature of the defining integrals "
              "for daun 0-3 (degree 3 via the clamped cubic Hermite spline), basex χ_k/ρ_k for several σ, rbasex p_{R;n}, and the "
              "inverse-Abel integrals of the two-/three-point local interpolants; onion D·W = 1.",
-        note="Partial: theorem-backed families are daun degrees 0-3, onion-peeling W, two-point, three-point and rbasex; basex is quadrature-backed "
-             "(1e-9) at special and random indices; the inverse Abel integral of the Dasch theorems is stated in line-of-sight form (x = √(r²+t²) not formalised); scipy's solve_banded in daun degree 3 is modelled by the Thomas algorithm. Trusted: Lean kernel + standard axioms; scipy.integrate.quad; the reading of "
+        note="Partial: every family is theorem-backed (daun degrees 0-3, onion-peeling W, two-point, three-point, rbasex, basex); for basex the part of the series the code drops "
+             "(beyond ±9(u+2) terms, u > k + 8) is only measured (quadrature, 1e-9); the inverse Abel integral of the Dasch theorems is stated in line-of-sight form (x = √(r²+t²) not formalised); scipy's solve_banded in daun degree 3 is modelled by the Thomas algorithm. Trusted: Lean kernel + standard axioms; scipy.integrate.quad; the reading of "
              "each basis function from the documentation; rbasex P[n][0,0]=1 (n>0) is a documented convention, not an integral.",
         technique="Lean 4 proof (Lebesgue integral of indicators, FTC for the ramp, real square-root/log algebra) + entrywise differential check + quadrature oracle",
         design="§3 C09"),
@@ -233,13 +234,13 @@ CLAIMED = {
     "C11": dict(
         text="Lean 4 theorems over the reals: StepAnalytical's and GaussianAnalytical's `abel` is the Abel integral of their `func` "
              "as functions of x, for every r1 < r2, A0, sigma (Mathlib measure theory: the shell lemma and the Gaussian integral); "
-             "linear scaling of Abel pairs; TransformPair profiles 1, 2, 3, 4, 5, 7: the coded projection expression (each branch, with its "
+             "linear scaling of Abel pairs; TransformPair profiles 1-7 (profile 6 by a substitution that turns the line of sight into a Gaussian integral): the coded projection expression (each branch, with its "
              "square roots and logarithms) equals 2∫ source(√(x²+z²)) dz for every 0 < x < 1, as corollaries of the polynomial-piece "
              "theorem of C10. Tie: the classes' arrays vs the closed forms the theorems mention, on random grids "
              "(symmetric or not, odd/even n), and the Lean profile expressions evaluated in Float vs transform_pairs.profile<k> / "
              "TransformPair. Oracle: scipy line-of-sight quadrature of func vs abel for every shipped pair — "
              "Step, Gaussian, Polynomial wrappers, TransformPair profiles 1-7, SampleImage names x sizes x options.",
-        note="Partial: profile 6 (not polynomial) and the sample images are decided by "
+        note="Partial: the sample images are decided by "
              "quadrature, not by theorem. Trusted: Lean kernel + standard axioms; scipy quad as the independent integrator.",
         technique="Lean 4 proof (Mathlib interval/set integrals) + differential correspondence + quadrature oracle",
         design="§3 C11"),
